@@ -390,5 +390,5 @@ def run(ctx):
     sub = type(ctx)(ctx.prop, ctx.tier, ctx.seed, ctx.repo)
     check_dynamic(sub, "C01.T4")
     for o in sub.obligations:
-        if o["key"] in ("table", "nested", "scalar", "restart", "select", "peek-header"):  # what a round trip of the library's own encodings needs
+        if o["key"] in ("table", "nested", "scalar", "restart", "select", "peek-header", "wildcard") or o["construct"] == "ANYVALUE":  # what a round trip of the library's own encodings needs (nested lists decode through ANYVALUE)
             ctx.obligations.append(o)
